@@ -48,7 +48,7 @@ func Project(o object.Object, d int) any {
 	case *object.NilType:
 		return N{"t": "nil"}
 	case *object.Float:
-		return N{"t": "float", "text": o.Inspect()}
+		return N{"t": "float", "v": Cps(o.Inspect())}
 	case *object.Byte:
 		return N{"t": "byte", "v": int(o.Value())}
 	case *object.List:
